@@ -126,6 +126,33 @@ def regenerate():
     return failures
 
 
+_REQ = re.compile(r'(?:From\s+QV\s+)?Require\s+(?:Import|Export)?\s*([^.]*(?:\.[A-Za-z_][^.\s]*)*)\.', re.S)
+
+
+def gen_deps(roots):
+    """Names of the generated modules (Gen/X.v) that the given Coq files depend
+    on, directly or through other files of the development."""
+    seen, todo, gens = set(), list(roots), set()
+    while todo:
+        rel = todo.pop()
+        if rel in seen:
+            continue
+        seen.add(rel)
+        try:
+            text = _strip_comments(open(os.path.join(COQ, rel), encoding='utf-8').read())
+        except FileNotFoundError:
+            continue
+        for m in re.finditer(r'\b((?:QV\.)?(?:Model|Gen|Proofs|Corr|Ref|Properties)\.[A-Za-z0-9_]+)', text):
+            mod = m.group(1)
+            if mod.startswith('QV.'):
+                mod = mod[3:]
+            d, name = mod.split('.', 1)
+            if d == 'Gen':
+                gens.add(name)
+            todo.append(f"{d}/{name}.v")
+    return gens
+
+
 def make(targets=(), timeout=1500):
     """Full .vo build of the Coq project (never -vos). Returns (ok, log)."""
     mk, cp = os.path.join(COQ, 'Makefile'), os.path.join(COQ, '_CoqProject')
